@@ -286,7 +286,15 @@ class Runner:
         if m: res['solver_s'] = float(m.group(1))
         st = [float(x) for x in re.findall(r'Runtime Solver: ([\d.]+)s', so)]
         if st: res['solver_s'] = round(sum(st), 2)
-        props = re.findall(r'^\[([^\]]+)\] (?:line \d+ )?(.*): (SUCCESS|FAILURE|UNKNOWN)$', so, re.M)
+        props = re.findall(r'^\[([^\]]+)\] (?:line \d+ )?(.*): (SUCCESS|FAILURE|UNKNOWN|ERROR)$', so, re.M)
+        # a verdict exists only if cbmc itself says so: exit 0 + VERIFICATION SUCCESSFUL, or exit 10 + VERIFICATION FAILED;
+        # anything else (VERIFICATION ERROR, solver out of memory, properties left in state ERROR/UNKNOWN) is no verdict
+        ok_pass = rc == 0 and 'VERIFICATION SUCCESSFUL' in so
+        ok_fail = rc == 10 and 'VERIFICATION FAILED' in so
+        if props and not (ok_pass or ok_fail) or any(r_ in ('ERROR', 'UNKNOWN') for _, _, r_ in props):
+            res['status'] = 'oom' if ('out of memory' in (so + se).lower() or 'bad_alloc' in (so + se)) else 'error'
+            res['detail'] = 'cbmc returned no verdict (rc=%s): %s' % (rc, ' '.join(l for l in so.split('\n') if 'ERROR' in l or 'memory' in l.lower())[:300])
+            return res
         if 'VERIFICATION' not in so or not props:
             res['status'] = 'error'
             res['detail'] = (so[-1500:] + se[-1500:])
